@@ -15,8 +15,10 @@ import (
 	"encoding/binary"
 	"encoding/hex"
 	"fmt"
+	"hash/fnv"
 	"io"
 	golog "log"
+	"math/big"
 	"net"
 	"os"
 	"path/filepath"
@@ -24,6 +26,7 @@ import (
 	"strconv"
 	"strings"
 	"testing"
+	"time"
 
 	"github.com/refraction-networking/conjure/internal/vlib"
 	"github.com/refraction-networking/conjure/pkg/station/log"
@@ -47,7 +50,17 @@ var c10TransportProto = map[pb.TransportType]int{
 	pb.TransportType_Min: 6, pb.TransportType_Obfs4: 6, pb.TransportType_Prefix: 6, pb.TransportType_DTLS: 17,
 }
 
-var c10TransportOrder = []pb.TransportType{pb.TransportType_Min, pb.TransportType_Obfs4, pb.TransportType_DTLS, pb.TransportType_Prefix}
+// transports the harness knows how to build.  WHICH of them are exercised is read from the tree under
+// test: the keys of cmd/application's enabledTransports (c10EnabledTransports, go/ast).
+var c10KnownTransports = map[pb.TransportType]func() Transport{
+	pb.TransportType_Min:   func() Transport { return min.Transport{} },
+	pb.TransportType_Obfs4: func() Transport { return obfs4.Transport{} },
+	// by value: the value type has no Connect method, so ingest does not start a DTLS dial
+	pb.TransportType_DTLS:   func() Transport { return dtls.Transport{} },
+	pb.TransportType_Prefix: func() Transport { return prefix.DefaultSet() },
+}
+
+var c10TransportOrder []pb.TransportType // filled by c10Setup from the station's main package
 
 type c10Live struct{ live bool }
 
@@ -57,11 +70,13 @@ func (c10Live) PrintStats(*log.Logger)                                 {}
 func (c10Live) Reset()                                                 {}
 
 type c10World struct {
-	t   *testing.T
-	out *vlib.Out
-	orc *c10Oracle
-	rds *c10Redis
-	rm  *RegistrationManager
+	t    *testing.T
+	out  *vlib.Out
+	orc  *c10Oracle
+	rds  *c10Redis
+	rm   *RegistrationManager
+	wire *c10Wire
+	r    *vlib.Rand
 }
 
 func c10NewManager(t *testing.T) *RegistrationManager {
@@ -72,12 +87,8 @@ func c10NewManager(t *testing.T) *RegistrationManager {
 	}
 	rm.Logger = log.New(io.Discard, "", golog.Ldate)
 	rm.LivenessTester = c10Live{}
-	for tt, tr := range map[pb.TransportType]Transport{
-		pb.TransportType_Min: min.Transport{}, pb.TransportType_Obfs4: obfs4.Transport{},
-		// by value: the value type has no Connect method, so ingest does not start a DTLS dial
-		pb.TransportType_DTLS: dtls.Transport{}, pb.TransportType_Prefix: prefix.DefaultSet(),
-	} {
-		if err := rm.AddTransport(tt, tr); err != nil {
+	for _, tt := range c10TransportOrder {
+		if err := rm.AddTransport(tt, c10KnownTransports[tt]()); err != nil {
 			t.Fatal(err)
 		}
 	}
@@ -88,7 +99,7 @@ func c10NewManager(t *testing.T) *RegistrationManager {
 // steps: one message each, handled in order by one detector
 
 type c10Expect struct {
-	kind    string // "session" (must be accepted and equal these fields) | "clear" (map must be empty) | ""
+	kind    string // "session" (must be accepted and equal these fields) | "clear" (map must be empty) | "tracked" (flow lookup must say yes) | ""
 	phantom string // canonical "4.<hex>" / "6.<hex>"
 	client  string
 	port    int
@@ -104,6 +115,28 @@ type c10Step struct {
 	pubs   int    // number of publications the real code made for this step (-1: no Go code involved)
 	chans  []string
 	exp    c10Expect
+	at     *uint64 // detector clock (ns) set before the step; nil = unchanged
+	same   bool    // orc is already in the model's syntax (sweep / flow lookup)
+	decErr string  // the published bytes do not parse under the detector's generated protobuf code
+	goView string  // the same publication as the Go protobuf library reads it (oracle syntax)
+}
+
+// at sets the detector's clock for the step.
+func (s c10Step) atTime(t uint64) c10Step {
+	s.at = &t
+	return s
+}
+
+// c10Sweep: the packet path's periodic drop_stale_sessions.
+func c10Sweep(t uint64) c10Step {
+	return c10Step{orc: "S", model: "S", replay: fmt.Sprintf("sweep,%d", t), pubs: -1, same: true}.atTime(t)
+}
+
+// c10Flow: a packet of a flow src → dst:dport with IP next-header number nh asks the packet path
+// whether it belongs to a registered session (addresses in canonical "4.<hex>" / "6.<hex>" form).
+func c10Flow(nh int, src, dst string, dport int, exp c10Expect) c10Step {
+	o := fmt.Sprintf("F,%d,%s,%s,%d", nh, src, dst, dport)
+	return c10Step{orc: o, model: o, replay: strings.ReplaceAll(o, ",", ":"), pubs: -1, same: true, exp: exp}
 }
 
 func c10Canon(ip []byte) string {
@@ -148,7 +181,8 @@ func c10OracleMsg(m *pb.StationToDetector) string {
 	return strings.Join(f, ",")
 }
 
-// capture turns what the real code just published into the oracle's message syntax.
+// capture turns what the real code just published into the oracle's message syntax, reading the bytes
+// the way the detector's generated protobuf code does (c10Wire.decode).
 func (w *c10World) capture(st *c10Step) {
 	pubs := w.rds.take()
 	st.pubs = len(pubs)
@@ -159,12 +193,17 @@ func (w *c10World) capture(st *c10Step) {
 	if len(pubs) == 0 {
 		return
 	}
-	m := &pb.StationToDetector{}
-	if err := proto.Unmarshal(pubs[len(pubs)-1].payload, m); err != nil {
-		st.pubs = -2
+	last := pubs[len(pubs)-1].payload
+	o, err := w.wire.decode(last)
+	if err != nil {
+		st.decErr = err.Error() + " (payload " + hex.EncodeToString(last) + ")"
 		return
 	}
-	st.orc = c10OracleMsg(m)
+	st.orc = o
+	m := &pb.StationToDetector{}
+	if err := proto.Unmarshal(last, m); err == nil {
+		st.goView = c10OracleMsg(m)
+	}
 }
 
 func c10ModelR(d *DecoyRegistration, dur uint64, op int) string {
@@ -182,10 +221,12 @@ func (w *c10World) stepSend(d *DecoyRegistration, dur uint64, op int) c10Step {
 }
 
 // stepClear publishes through the real Cleanup → clearDetector.
-func (w *c10World) stepClear() c10Step {
+func (w *c10World) stepClear() c10Step { return w.stepClearOn(w.rm, "clear") }
+
+func (w *c10World) stepClearOn(rm *RegistrationManager, replay string) c10Step {
 	w.rds.take()
-	w.rm.Cleanup()
-	st := c10Step{model: "C", replay: "clear", exp: c10Expect{kind: "clear", what: "station shutdown clear"}}
+	rm.Cleanup()
+	st := c10Step{model: "C", replay: replay, exp: c10Expect{kind: "clear", what: "station shutdown clear"}}
 	w.capture(&st)
 	return st
 }
@@ -199,10 +240,16 @@ func (w *c10World) stepRaw(r c10Raw) c10Step {
 
 // run hands the steps to the detector oracle, records the correspondence case and evaluates the
 // property on the implementation's behaviour.
-func (w *c10World) run(steps []c10Step, nontrivial bool) {
+func (w *c10World) run(steps []c10Step, nontrivial bool) []c10Answer {
+	pre := func(s *c10Step, body string) string {
+		if s.at != nil {
+			return strconv.FormatUint(*s.at, 10) + "@" + body
+		}
+		return body
+	}
 	var os_ []string
-	for _, s := range steps {
-		os_ = append(os_, s.orc)
+	for i := range steps {
+		os_ = append(os_, pre(&steps[i], steps[i].orc))
 	}
 	ans, err := w.orc.ask(strings.Join(os_, ";"))
 	if err != nil {
@@ -212,9 +259,16 @@ func (w *c10World) run(steps []c10Step, nontrivial bool) {
 		w.t.Fatalf("oracle answered %d of %d messages", len(ans), len(steps))
 	}
 	var ms, is, rs []string
+	var tags []string
+	now := uint64(0)
+	nows := make([]uint64, len(steps))
 	for i := range steps {
 		s := &steps[i]
-		if s.pubs == -1 {
+		if s.at != nil {
+			now = *s.at
+		}
+		nows[i] = now
+		if s.pubs == -1 && !s.same {
 			// raw message: the text fields reach the model as classified by the detector's parser
 			f := strings.Split(s.orc, ",")
 			if f[2] != "-" {
@@ -231,19 +285,40 @@ func (w *c10World) run(steps []c10Step, nontrivial bool) {
 			}
 			s.model = "M," + strings.Join(f, ",")
 		}
-		ms = append(ms, s.model)
-		is = append(is, ans[i].canon)
-		rs = append(rs, s.replay)
+		// equal tags ⇔ equal classes: index of the first step of the case whose tag STRING is the same
+		cls := "-"
+		if ans[i].tag != "" {
+			cls = strconv.Itoa(len(tags))
+			for j, t := range tags {
+				if t == ans[i].tag {
+					cls = strconv.Itoa(j)
+					break
+				}
+			}
+		}
+		tags = append(tags, ans[i].tag)
+		ms = append(ms, pre(s, s.model))
+		is = append(is, ans[i].canon+"/"+cls)
+		r := s.replay
+		if s.at != nil && !s.same {
+			r = "at:" + strconv.FormatUint(*s.at, 10) + "," + r
+		}
+		rs = append(rs, r)
 	}
 	replay := "c10replay|" + strings.Join(rs, ";")
 	for i := range steps {
 		s, a := &steps[i], ans[i]
-		if strings.HasPrefix(a.conv, "ok:") {
+		switch {
+		case strings.HasPrefix(a.conv, "ok:"):
 			w.out.Count("detector:accepted")
-		} else {
+		case strings.HasPrefix(a.conv, "sweep:"):
+			w.out.Count("detector:sweep")
+		case strings.HasPrefix(a.conv, "flow:"):
+			w.out.Count("detector:" + a.conv)
+		default:
 			w.out.Count("detector:" + a.conv)
 		}
-		if s.pubs >= 0 || s.pubs == -2 {
+		if s.pubs >= 0 {
 			w.out.Checked()
 			if s.pubs != 1 {
 				w.out.OracleFail("C10:not-exactly-one-publication", fmt.Sprintf("step %d (%s): %d publications", i, s.replay, s.pubs), replay)
@@ -253,6 +328,12 @@ func (w *c10World) run(steps []c10Step, nontrivial bool) {
 					w.out.OracleFail("C10:wrong-channel", fmt.Sprintf("published on %q, the detector subscribes to %q", ch, w.orc.channel), replay)
 				}
 			}
+			if s.decErr != "" {
+				w.out.OracleFail("C10:publication-unreadable-by-detector", fmt.Sprintf("step %d (%s): the detector's protobuf code cannot read the publication: %s", i, s.replay, s.decErr), replay)
+			}
+			if s.goView != "" && s.goView != s.orc {
+				w.out.Count("wire:go-and-rust-read-the-publication-differently")
+			}
 		}
 		switch s.exp.kind {
 		case "clear":
@@ -260,6 +341,12 @@ func (w *c10World) run(steps []c10Step, nontrivial bool) {
 			if a.n != "0" || a.sentinel != "0" {
 				w.out.OracleFail("C10:clear-ignored-by-detector",
 					fmt.Sprintf("the detector did not act on the station's clear message: %s, %s session(s) still diverted (message %s)", a.conv, a.n, s.orc), replay)
+			}
+		case "tracked":
+			w.out.Checked()
+			if a.conv != "flow:1" {
+				w.out.OracleFail("C10:flow-not-forwarded",
+					fmt.Sprintf("%s: at detector time %d (after the sweep of stale sessions) the packet path does not recognise the flow %s (tag %q) as a registered session", s.exp.what, nows[i], s.orc, a.tag), replay)
 			}
 		case "session":
 			w.out.Checked()
@@ -278,13 +365,14 @@ func (w *c10World) run(steps []c10Step, nontrivial bool) {
 						fmt.Sprintf("%s: detector session %s = %s, registration has %s", e.what, names[j], f[j], want[j]), replay)
 				}
 			}
-			// the detector forwards for at least the requested lifetime (clock fixed at 0)
-			if v, err := strconv.ParseUint(a.val, 10, 64); err != nil || v < e.timeout {
-				w.out.OracleFail("C10:session-expiry-short", fmt.Sprintf("%s: stored expiry %s < requested %d", e.what, a.val, e.timeout), replay)
+			// the detector stores an expiry of at least its clock + the requested lifetime
+			if v, ok := new(big.Int).SetString(a.val, 10); !ok || v.Cmp(new(big.Int).Add(new(big.Int).SetUint64(nows[i]), new(big.Int).SetUint64(e.timeout))) < 0 {
+				w.out.OracleFail("C10:session-expiry-short", fmt.Sprintf("%s: stored expiry %s < clock %d + requested %d", e.what, a.val, nows[i], e.timeout), replay)
 			}
 		}
 	}
 	w.out.Case("c10|"+strings.Join(ms, ";"), strings.Join(is, ";"), nontrivial)
+	return ans
 }
 
 // ---------------------------------------------------------------------------------------------
@@ -373,6 +461,8 @@ func (w *c10World) ingestWrapper(raw []byte, cw *c10Wrapper) []c10Step {
 	}
 	parsed := &pb.C2SWrapper{}
 	_ = proto.Unmarshal(raw, parsed)
+	h := c10Hash(raw)
+	clock := h % (1 << 50)
 	for _, reg := range regs {
 		if reg == nil {
 			continue
@@ -435,23 +525,63 @@ func (w *c10World) ingestWrapper(raw []byte, cw *c10Wrapper) []c10Step {
 		if _, ok := w.rm.GetRegistrations(reg.PhantomIp)[w.rm.registeredDecoys.transports[reg.Transport].GetIdentifier(reg)]; !ok {
 			w.out.OracleFail("C10:not-connectable", "admitted registration is not returned for its phantom", "c10replay|"+replay)
 		}
-		// New announcement made by ingest (the real registerForDetector closure)
-		st := c10Step{model: c10ModelR(reg, unused, 1), replay: replay}
+		// New announcement made by ingest (the real registerForDetector closure), handled by the
+		// detector at clock t0
+		t0 := clock
+		st := c10Step{model: c10ModelR(reg, unused, 1), replay: replay}.atTime(t0)
 		w.capture(&st)
 		st.exp = exp
 		st.exp.timeout = c10TenMinutesNs
 		st.exp.what = fmt.Sprintf("New announcement of %s registration on %s", reg.Transport, reg.PhantomIp)
 		steps = append(steps, st)
-		// first connection: MarkActive → the real updateInDetector closure
+		// the flow the client will send: to the phantom and port, with the transport's protocol, from
+		// the registrant (the tag of an IPv6 phantom leaves the source out: any IPv6 source)
+		canonical := func(a string) bool { return strings.HasPrefix(a, "4.") || strings.HasPrefix(a, "6.") }
+		src := exp.client
+		if strings.HasPrefix(exp.phantom, "6.") && !strings.HasPrefix(src, "6.") {
+			src = "6.20010db8000000000000000000000099"
+		}
+		flows := canonical(src) && canonical(exp.phantom)
+		sub := func(st c10Step) c10Step { st.replay = "(wrapper)"; return st }
+		flow := func(state string, last uint64) c10Step {
+			return sub(c10Flow(exp.proto, src, exp.phantom, exp.port, c10Expect{kind: "tracked",
+				what: fmt.Sprintf("%s %s registration on %s, %d ns after its announcement (1 ns before the station's own expiry)", state, reg.Transport, reg.PhantomIp, last)}))
+		}
+		// first connection: MarkActive → the real updateInDetector closure.  Variant A: at the last
+		// instant the station still accepts a first connection, after checking that the detector
+		// still forwards then; variant B: at some earlier instant.
+		t1 := t0 + c10TenMinutesNs - 1
+		if h&1 == 0 {
+			if flows {
+				steps = append(steps, sub(c10Sweep(t1)), flow("unused", c10TenMinutesNs-1))
+			}
+		} else {
+			t1 = t0 + (h>>8)%c10TenMinutesNs
+		}
 		w.rm.MarkActive(tracked)
-		st2 := c10Step{model: c10ModelR(reg, active, 2), replay: "markactive"}
+		st2 := c10Step{model: c10ModelR(reg, active, 2), replay: "markactive"}.atTime(t1)
 		w.capture(&st2)
 		st2.exp = exp
 		st2.exp.timeout = c10SixHoursNs
 		st2.exp.what = fmt.Sprintf("Update announcement of %s registration on %s", reg.Transport, reg.PhantomIp)
 		steps = append(steps, st2)
+		clock = t1 + c10SixHoursNs + 1 + (h>>16)%1000000007
+		if flows {
+			// one nanosecond before the station's own expiry the packet path still forwards; at and after
+			// the expiry only model and detector are compared (the boundary instant is not judged)
+			steps = append(steps, sub(c10Sweep(t1+c10SixHoursNs-1)), flow("used", c10SixHoursNs-1),
+				sub(c10Sweep(t1+c10SixHoursNs)), sub(c10Flow(exp.proto, src, exp.phantom, exp.port, c10Expect{})),
+				sub(c10Sweep(clock)), sub(c10Flow(exp.proto, src, exp.phantom, exp.port, c10Expect{})))
+		}
 	}
 	return steps
+}
+
+// c10Hash: deterministic per-wrapper source of the virtual detector clock (a replay sees the same times)
+func c10Hash(b []byte) uint64 {
+	h := fnv.New64a()
+	h.Write(b)
+	return h.Sum64()
 }
 
 func c10Registrant(parsed *pb.C2SWrapper) []byte {
@@ -568,30 +698,115 @@ func c10RandIP(r *vlib.Rand) []byte {
 	}
 }
 
+func c10SatAdd(a, b uint64) uint64 {
+	if a+b < a {
+		return 1<<64 - 1
+	}
+	return a + b
+}
+
+// c10RegOfModel rebuilds the registration of an earlier "R,…" step.
+func c10RegOfModel(model string) *DecoyRegistration {
+	d := &DecoyRegistration{}
+	if f := strings.Split(model, ","); len(f) == 7 {
+		d.PhantomIp, _ = hex.DecodeString(strings.TrimPrefix(f[1], "-"))
+		d.registrationAddr, _ = hex.DecodeString(strings.TrimPrefix(f[2], "-"))
+		p, _ := strconv.Atoi(f[3])
+		pr, _ := strconv.Atoi(f[4])
+		d.PhantomPort, d.PhantomProto = uint16(p), pb.IPProto(pr)
+	}
+	return d
+}
+
+// c10FlowNear: a lookup for the flow of d, or for a flow that differs from it in one component
+// (correspondence only: exercises the tag of flows against the tag of sessions, component by component).
+func c10FlowNear(r *vlib.Rand, d *DecoyRegistration) (c10Step, bool) {
+	ph, cl := c10Canon(d.PhantomIp), c10Canon(d.registrationAddr)
+	if strings.HasPrefix(ph, "?") {
+		return c10Step{}, false
+	}
+	if strings.HasPrefix(cl, "?") || r.Chance(1, 6) {
+		cl = c10Canon(r.Bytes([]int{4, 16}[r.Intn(2)]))
+	}
+	nh := map[pb.IPProto]int{pb.IPProto_Tcp: 6, pb.IPProto_Udp: 17}[d.PhantomProto]
+	port := int(d.PhantomPort)
+	switch r.Intn(10) {
+	case 0:
+		port = (port + 1) % 65536
+	case 1:
+		nh = []int{6, 17, 1, 0, 132}[r.Intn(5)]
+	case 2:
+		ph = c10Canon(r.Bytes([]int{4, 16}[r.Intn(2)]))
+	case 3:
+		ph, cl = cl, ph
+	}
+	return c10Flow(nh, cl, ph, port, c10Expect{}), true
+}
+
 func (w *c10World) directRandom(r *vlib.Rand, n int) {
 	for i := 0; i < n; i++ {
 		k := r.Range(1, 4)
 		var steps []c10Step
+		var sent []*DecoyRegistration
+		clock := uint64(r.U64() % (1 << 50))
+		var lastDur uint64
 		for j := 0; j < k; j++ {
+			// the detector's clock moves on: by nothing, by a little, or to around the last expiry
+			switch r.Intn(5) {
+			case 0:
+			case 1:
+				clock = c10SatAdd(clock, uint64(r.Intn(1<<30)))
+			case 2:
+				clock = c10SatAdd(clock, lastDur)
+			case 3:
+				if lastDur > 0 {
+					clock = c10SatAdd(clock, lastDur-1)
+				}
+			case 4:
+				clock = c10SatAdd(clock, c10SatAdd(lastDur, 1))
+			}
 			if r.Chance(1, 8) {
-				steps = append(steps, w.stepClear())
+				steps = append(steps, w.stepClear().atTime(clock))
+				continue
+			}
+			if len(sent) > 0 && r.Chance(1, 3) {
+				// the packet path: sweep, then look a flow up
+				steps = append(steps, c10Sweep(clock))
+				if fs, ok := c10FlowNear(r, sent[r.Intn(len(sent))]); ok {
+					steps = append(steps, fs)
+				}
 				continue
 			}
 			d := &DecoyRegistration{PhantomIp: c10RandIP(r), registrationAddr: c10RandIP(r), PhantomPort: uint16(r.Intn(65536)), PhantomProto: pb.IPProto(r.Intn(4))}
-			if j > 0 && r.Chance(1, 2) {
-				// same session again with another lifetime / operation
-				d = &DecoyRegistration{}
-				prev := steps[0]
-				if f := strings.Split(prev.model, ","); len(f) == 7 {
-					d.PhantomIp, _ = hex.DecodeString(strings.TrimPrefix(f[1], "-"))
-					d.registrationAddr, _ = hex.DecodeString(strings.TrimPrefix(f[2], "-"))
-					p, _ := strconv.Atoi(f[3])
-					pr, _ := strconv.Atoi(f[4])
-					d.PhantomPort, d.PhantomProto = uint16(p), pb.IPProto(pr)
+			if len(sent) > 0 && r.Chance(1, 2) {
+				// the same session again with another lifetime / operation, or a neighbour of it that
+				// differs in exactly one component of the tag
+				d = sent[r.Intn(len(sent))]
+				d = &DecoyRegistration{PhantomIp: d.PhantomIp, registrationAddr: d.registrationAddr, PhantomPort: d.PhantomPort, PhantomProto: d.PhantomProto}
+				switch r.Intn(8) {
+				case 0:
+					d.PhantomPort++
+				case 1:
+					d.PhantomProto = pb.IPProto(1 + (int(d.PhantomProto) % 2))
+				case 2:
+					d.registrationAddr = c10RandIP(r)
+				case 3:
+					d.PhantomIp = c10RandIP(r)
+				case 4:
+					// the same registrant in its other encoding (4 bytes ↔ v4-mapped)
+					if p4 := net.IP(d.registrationAddr).To4(); p4 != nil {
+						if len(d.registrationAddr) == 4 {
+							d.registrationAddr = net.IP(p4).To16()
+						} else {
+							d.registrationAddr = p4
+						}
+					}
 				}
 			}
 			dur := []uint64{0, 1, c10TenMinutesNs, c10SixHoursNs, uint64(r.Intn(1 << 30)), 1<<64 - 1}[r.Intn(6)]
-			steps = append(steps, w.stepSend(d, dur, r.Intn(5)))
+			lastDur = dur
+			sent = append(sent, d)
+			steps = append(steps, w.stepSend(d, dur, r.Intn(5)).atTime(clock))
 		}
 		w.run(steps, true)
 	}
@@ -620,15 +835,34 @@ func (w *c10World) rawRandom(r *vlib.Rand, n int) {
 	for i := 0; i < n; i++ {
 		k := r.Range(1, 4)
 		var steps []c10Step
+		clock := uint64(0)
 		for j := 0; j < k; j++ {
+			if r.Chance(1, 2) {
+				clock = c10SatAdd(clock, []uint64{0, 1, 2, 599999999999, 600000000000, 600000000001, 21600000000000, uint64(r.Intn(1 << 40))}[r.Intn(8)])
+			}
+			if j > 0 && r.Chance(1, 4) {
+				steps = append(steps, c10Sweep(clock))
+				addrs := []string{"4.01020304", "4.0a000001", "4.00000000", "4.ffffffff", "6.00000000000000000000000000000000", "6.00000000000000000000000000000001",
+					"6.20010db8000000000000000000000001", "6.00000000000000000000ffff01020304", "6.00000000000000000000000001020304", "6.00010002000300040005000600070008", "6.20010db800000000000000000000000a"}
+				steps = append(steps, c10Flow([]int{6, 17, 6, 17, 0, 1}[r.Intn(6)], addrs[r.Intn(len(addrs))], addrs[r.Intn(len(addrs))], []int{0, 443, 65535, 4464}[r.Intn(4)], c10Expect{}))
+				continue
+			}
 			m := c10Raw{op: opt([]string{"0", "1", "2", "3", "4", "1", "2", "-1"}), proto: opt([]string{"0", "1", "2", "3", "1", "2"}), client: txt(), phantom: txt(),
 				dport: opt([]string{"0", "443", "65535", "65536", "70000", "4294967295"}), sport: opt([]string{"0", "1", "65537"}),
 				timeout: opt([]string{"0", "1", "600000000000", "21600000000000", "18446744073709551615"})}
 			if j > 0 && r.Chance(1, 2) {
-				prev := strings.Split(steps[0].orc, ",")
-				m.client, m.phantom, m.proto, m.dport = prev[2], prev[3], prev[1], prev[4]
+				var prev []string
+				for _, ps := range steps {
+					if !ps.same {
+						prev = strings.Split(ps.orc, ",")
+						break
+					}
+				}
+				if prev != nil {
+					m.client, m.phantom, m.proto, m.dport = prev[2], prev[3], prev[1], prev[4]
+				}
 			}
-			steps = append(steps, w.stepRaw(m))
+			steps = append(steps, w.stepRaw(m).atTime(clock))
 		}
 		w.run(steps, true)
 	}
@@ -643,7 +877,8 @@ func (w *c10World) rawExhaustive() {
 			for _, cl := range texts {
 				for _, ph := range texts {
 					w.run([]c10Step{w.stepRaw(c10Raw{op: "1", proto: "1", client: "h" + hex.EncodeToString([]byte("198.51.100.1")), phantom: "h" + hex.EncodeToString([]byte("192.0.2.99")), dport: "443", sport: "-", timeout: "5"}),
-						w.stepRaw(c10Raw{op: op, proto: pr, client: cl, phantom: ph, dport: "443", sport: "-", timeout: "7"})}, true)
+						w.stepRaw(c10Raw{op: op, proto: pr, client: cl, phantom: ph, dport: "443", sport: "-", timeout: "7"}),
+						c10Sweep(5), c10Flow(6, "4.c6336401", "4.c0000263", 443, c10Expect{}), c10Flow(6, "6.20010db8000000000000000000000002", "6.20010db8000000000000000000000002", 443, c10Expect{})}, true)
 				}
 			}
 		}
@@ -653,7 +888,22 @@ func (w *c10World) rawExhaustive() {
 // ---------------------------------------------------------------------------------------------
 
 func c10Setup(t *testing.T) *c10World {
+	facts, err := c10MainFacts()
+	if err != nil {
+		t.Fatal(err)
+	}
+	c10TransportOrder = nil
+	for _, tt := range facts.enabled {
+		if _, ok := c10KnownTransports[tt]; !ok {
+			t.Fatalf("cmd/application enables transport %s, which the C10 harness cannot build: add it to c10KnownTransports and c10TransportProto", tt)
+		}
+		c10TransportOrder = append(c10TransportOrder, tt)
+	}
 	orc, err := c10BuildOracle()
+	if err != nil {
+		t.Fatal(err)
+	}
+	wire, err := c10RustWire()
 	if err != nil {
 		t.Fatal(err)
 	}
@@ -662,8 +912,77 @@ func c10Setup(t *testing.T) *c10World {
 		t.Fatal(err)
 	}
 	c10PointStationAt(rds)
-	return &c10World{t: t, orc: orc, rds: rds, rm: c10NewManager(t)}
+	return &c10World{t: t, orc: orc, rds: rds, rm: c10NewManager(t), wire: wire}
 }
+
+// ---------------------------------------------------------------------------------------------
+// shutdown: Cleanup() in every state of the registry a station can be in when it is told to stop
+
+// c10Age shifts every timeout record of the manager into the past (relative shift of the real
+// timestamps, as the expiry sweeper reads them).
+func c10Age(rm *RegistrationManager, d time.Duration) {
+	rm.registeredDecoys.m.Lock()
+	defer rm.registeredDecoys.m.Unlock()
+	for _, to := range rm.registeredDecoys.decoysTimeouts {
+		to.registrationTime = to.registrationTime.Add(-d)
+	}
+}
+
+func (w *c10World) shutdownWrapper(i int) []byte {
+	cw := c10Wrapper{transport: c10TransportOrder[i%len(c10TransportOrder)], v4: i%2 == 0, v6: i%2 == 1, registrant: c10Registrants[1+i%3].b, libver: 3, gen: 957,
+		source: pb.RegistrationSource_API, secret: w.r.Bytes(32)}
+	raw, err := proto.Marshal(cw.build())
+	if err != nil {
+		w.t.Fatal(err)
+	}
+	return raw
+}
+
+// shutdownScenario runs one of the named shutdown histories on a manager of its own and returns the
+// steps the detector sees (announcements, then the clear).
+func (w *c10World) shutdownScenario(name string) []c10Step {
+	saved := w.rm
+	defer func() { w.rm = saved }()
+	w.rm = c10NewManager(w.t)
+	var steps []c10Step
+	switch name {
+	case "shutdown-never-registered":
+		// a station that was started and stopped without admitting anything
+	case "shutdown-while-tracking":
+		for i := 0; i < 3; i++ {
+			steps = append(steps, w.ingestWrapper(w.shutdownWrapper(i), nil)...)
+		}
+	case "shutdown-after-sweep":
+		// announce → every registration outlives its lifetime → the sweeper removes it → stop: the
+		// detector may still hold the sessions (it extends them while packets arrive)
+		for i := 0; i < 3; i++ {
+			steps = append(steps, w.ingestWrapper(w.shutdownWrapper(i), nil)...)
+		}
+		c10Age(w.rm, 7*time.Hour)
+		w.rm.RemoveOldRegistrations()
+		w.out.Count(fmt.Sprintf("shutdown:registrations-left-after-sweep=%d", w.rm.registeredDecoys.TotalRegistrations()))
+	case "shutdown-only-unvalidated":
+		// registrations that are tracked but were never validated (the phantom answered the liveness probe)
+		w.rm.LivenessTester = c10Live{live: true}
+		for i := 0; i < 2; i++ {
+			steps = append(steps, w.ingestWrapper(w.shutdownWrapper(i), nil)...)
+		}
+	default:
+		w.t.Fatalf("unknown shutdown scenario %q", name)
+	}
+	// only the announcements matter for the detector's state here; drop the lookups to keep the case short
+	var ann []c10Step
+	for _, st := range steps {
+		if !st.same {
+			st.replay = "(scenario)"
+			ann = append(ann, st)
+		}
+	}
+	w.out.Count("shutdown:" + name)
+	return append(ann, w.stepClearOn(w.rm, name))
+}
+
+var c10ShutdownScenarios = []string{"shutdown-never-registered", "shutdown-while-tracking", "shutdown-after-sweep", "shutdown-only-unvalidated"}
 
 func TestVerifC10(t *testing.T) {
 	out := vlib.Open("C10")
@@ -671,14 +990,19 @@ func TestVerifC10(t *testing.T) {
 	w := c10Setup(t)
 	defer w.orc.close()
 	w.out = out
+	w.r = vlib.NewRand("C10-replay")
 	if rp := vlib.Replay(); rp != "" {
 		c10Replay(w, rp)
 		return
 	}
 	r := vlib.NewRand("C10")
+	w.r = r
 
 	// corpus: the shutdown clear on its own, and after announcements it has to wipe
 	w.run([]c10Step{w.stepClear()}, true)
+	for _, sc := range c10ShutdownScenarios {
+		w.run(w.shutdownScenario(sc), true)
+	}
 	d4 := &DecoyRegistration{PhantomIp: net.ParseIP("192.122.190.5"), registrationAddr: net.ParseIP("203.0.113.5"), PhantomPort: 443, PhantomProto: pb.IPProto_Tcp}
 	d6 := &DecoyRegistration{PhantomIp: net.ParseIP("2001:48a8:687f:1::5"), registrationAddr: net.ParseIP("2001:db8::5"), PhantomPort: 50123, PhantomProto: pb.IPProto_Udp}
 	w.run([]c10Step{w.stepSend(d4, c10TenMinutesNs, 1), w.stepSend(d6, c10TenMinutesNs, 1), w.stepSend(d4, c10SixHoursNs, 2), w.stepClear()}, true)
@@ -712,10 +1036,24 @@ func c10Replay(w *c10World, path string) {
 		var steps []c10Step
 		for _, s := range strings.Split(strings.TrimPrefix(line, "c10replay|"), ";") {
 			f := strings.Split(s, ",")
-			switch f[0] {
-			case "clear":
-				steps = append(steps, w.stepClear())
-			case "send":
+			var at *uint64
+			if strings.HasPrefix(f[0], "at:") {
+				v, err := strconv.ParseUint(strings.TrimPrefix(f[0], "at:"), 10, 64)
+				if err != nil {
+					w.t.Fatalf("bad replay step %q", s)
+				}
+				at, f = &v, f[1:]
+			}
+			add := func(st c10Step) {
+				if at != nil {
+					st = st.atTime(*at)
+				}
+				steps = append(steps, st)
+			}
+			switch {
+			case f[0] == "clear":
+				add(w.stepClear())
+			case f[0] == "send":
 				if len(f) != 7 {
 					w.t.Fatalf("bad replay step %q", s)
 				}
@@ -725,36 +1063,54 @@ func c10Replay(w *c10World, path string) {
 				pr, _ := strconv.Atoi(f[4])
 				op, _ := strconv.Atoi(f[5])
 				dur, _ := strconv.ParseUint(f[6], 10, 64)
-				steps = append(steps, w.stepSend(&DecoyRegistration{PhantomIp: ph, registrationAddr: rg, PhantomPort: uint16(port), PhantomProto: pb.IPProto(pr)}, dur, op))
-			case "wrapper":
+				add(w.stepSend(&DecoyRegistration{PhantomIp: ph, registrationAddr: rg, PhantomPort: uint16(port), PhantomProto: pb.IPProto(pr)}, dur, op))
+			case f[0] == "wrapper":
+				// the clock values of a wrapper's steps are a function of its bytes
 				raw, _ := hex.DecodeString(f[1])
 				steps = append(steps, w.ingestWrapper(raw, nil)...)
-			case "markactive":
-				// performed as part of the preceding wrapper step
-			case "raw":
+			case f[0] == "markactive", f[0] == "(wrapper)", f[0] == "(scenario)":
+				// performed as part of the wrapper / scenario step it belongs to
+			case strings.HasPrefix(f[0], "shutdown-"):
+				steps = append(steps, w.shutdownScenario(f[0])...)
+			case f[0] == "sweep":
+				v, err := strconv.ParseUint(f[1], 10, 64)
+				if err != nil {
+					w.t.Fatalf("bad replay step %q", s)
+				}
+				steps = append(steps, c10Sweep(v))
+			case strings.HasPrefix(f[0], "F:"):
+				p := strings.Split(f[0], ":")
+				if len(p) != 5 {
+					w.t.Fatalf("bad replay step %q", s)
+				}
+				nh, _ := strconv.Atoi(p[1])
+				dp, _ := strconv.Atoi(p[4])
+				steps = append(steps, c10Flow(nh, p[2], p[3], dp, c10Expect{}))
+			case f[0] == "raw":
 				p := strings.Split(f[1], ":")
 				if len(p) != 7 {
 					w.t.Fatalf("bad replay step %q", s)
 				}
-				steps = append(steps, w.stepRaw(c10Raw{p[0], p[1], p[2], p[3], p[4], p[5], p[6]}))
+				add(w.stepRaw(c10Raw{p[0], p[1], p[2], p[3], p[4], p[5], p[6]}))
+			default:
+				w.t.Fatalf("unknown replay step %q", s)
 			}
 		}
 		if len(steps) == 0 {
 			continue
 		}
-		w.run(steps, true)
-		for _, s := range steps {
-			fmt.Printf("REPLAY step %-12s published=%d message(op,proto,client,phantom,dport,sport,timeout)=%s\n", strings.SplitN(s.replay, ",", 2)[0], s.pubs, s.orc)
-		}
-		ans, _ := w.orc.ask(func() string {
-			var o []string
-			for _, s := range steps {
-				o = append(o, s.orc)
+		ans := w.run(steps, true)
+		for i, s := range steps {
+			clk := ""
+			if s.at != nil {
+				clk = fmt.Sprintf(" detector-clock=%d", *s.at)
 			}
-			return strings.Join(o, ";")
-		}())
-		for i, a := range ans {
-			fmt.Printf("REPLAY detector on message %d: %s  (map size %s, foreign session still present: %s)\n", i, a.conv, a.n, a.sentinel)
+			if s.same {
+				fmt.Printf("REPLAY step %d %s%s -> %s (map size %s)\n", i, s.orc, clk, ans[i].conv, ans[i].n)
+				continue
+			}
+			fmt.Printf("REPLAY step %d %-12s%s published=%d message(op,proto,client,phantom,dport,sport,timeout)=%s\n", i, strings.SplitN(s.replay, ",", 2)[0], clk, s.pubs, s.orc)
+			fmt.Printf("REPLAY   detector: %s  (map size %s, foreign session still present: %s)\n", ans[i].conv, ans[i].n, ans[i].sentinel)
 		}
 	}
 }
